@@ -166,6 +166,14 @@ def lf3(F, R):
     # overflow set on the failing edge with an immediate return
     ov = [(b, i) for b, i, s in p.stmts() if s["k"] == "Assign" and s["p"]["proj"] and p.place_str(s["p"]) == "(*self).overflow" and p.term_of_rvalue(s["rv"], b)[:2] == ("c", 1)]
     R.require(len(ov) == 1 and not any(x[0] in p.reach_after(ov[0][0]) for x in stores), p, "overflow-flag", "running out of space must set overflow = true and store nothing afterwards", p.loc(0))
+    # ... and nowhere else: the flag means "a character did not fit", which only push can know (set from an estimate - an
+    # upper bound of the length - it reports names that do fit as too long).  Helpers of push are looked at in place.
+    for g_ in F.fns:
+        for b, i, s_ in g_.stmts():
+            if s_["k"] == "Assign" and s_["p"]["proj"] and g_.place_str(s_["p"]).split(".")[-1] == "overflow" and "LfnBuffer" in g_.locals[s_["p"]["l"]]["ty"]:
+                owner = g_.npath if g_.kind != "Closure" else g_.npath.rsplit("::{closure", 1)[0]
+                if owner not in (LFN + "::new", LFN + "::clear", LFN + "::push"):
+                    R.bad(g_, "overflow-writers", "LfnBuffer.overflow is stored outside new/clear/push (%s): the flag no longer means that a pushed character did not fit" % g_.npath.split("::")[-1], g_.loc(b, i))
     # new / clear
     for nm in ("new", "clear"):
         f = F.fn(LFN + "::" + nm)
